@@ -5,6 +5,7 @@ Every scenario of those checks needs its own proxy instance (it is restarted, cr
 rewritten), so the environment only owns the origin stub, the shared clock and a cache of freshly
 created (``squid -z``) cache_dir templates that are copied instead of running ``squid -z`` again.
 """
+import fcntl
 import itertools
 import os
 import re
@@ -13,7 +14,7 @@ import subprocess
 import time
 
 from .. import native
-from ..common import RUN
+from ..common import BUILD, RUN, sha
 from . import client, httpref, origin, squidproc
 
 # cache_dir lines; {run} is the instance directory
@@ -72,25 +73,57 @@ class DiskEnv:
                              cache_dirs=[cache_dir], clock=self.clock, workers=workers, ports=ports, debug=debug)
         self.live.append(sq)
         sq.prepare()
-        key = cache_dir + "|%d" % workers
         sub = cache_dir.split()[1].format(run="").lstrip("/")      # directory name below {run}
-        tmpl = self.templates.get(key)
-        if not create:
-            pass
-        elif tmpl is None:
-            sq.create_dirs()
-            os.makedirs(self.tmpl_root, exist_ok=True)
-            tmpl = os.path.join(self.tmpl_root, "t%d" % len(self.templates))
-            subprocess.run(["cp", "-a", "--sparse=always", os.path.join(sq.run, sub), tmpl], check=True)
-            self.templates[key] = tmpl
-        else:
-            subprocess.run(["cp", "-a", "--sparse=always", tmpl, os.path.join(sq.run, sub)], check=True)
+        if create:
+            tmpl = self._template(sq, cache_dir, sub)
+            if tmpl is not None:
+                subprocess.run(["cp", "-a", "--sparse=always", tmpl, os.path.join(sq.run, sub)], check=True)
         sq.cache_sub = os.path.join(sq.run, sub)
         if extra_env:
             sq.extra_env = dict(extra_env)   # only for the serving process, never for squid -z
         if started:
             sq.start(fresh=False, timeout=timeout)
         return sq
+
+    def _template(self, sq, cache_dir, sub):
+        """A freshly created (`squid -z`) cache directory for this cache_dir line, shared by all workers and runs that use
+        the same squid binary (kept under BUILD/tmpl-cache, made once under a file lock).  -> template path, or None when
+        this call has just created the directory inside sq.run itself."""
+        tmpl = self.templates.get(cache_dir)
+        if tmpl is not None and os.path.isdir(tmpl):
+            return tmpl
+        try:
+            st = os.stat(sq.binary)
+            stamp = "%d-%d" % (st.st_mtime_ns, st.st_size)
+        except OSError:
+            stamp = "nobin"
+        root = os.path.join(BUILD, "tmpl-cache")
+        os.makedirs(root, exist_ok=True)
+        name = "%s-%s" % (sha(cache_dir + "|" + stamp), sub.replace("/", "_"))
+        tmpl = os.path.join(root, name)
+        with open(os.path.join(root, "lock"), "a") as lk:
+            fcntl.flock(lk, fcntl.LOCK_EX)
+            if not os.path.isdir(tmpl):
+                sq.create_dirs()
+                tmp = tmpl + ".tmp%d" % os.getpid()
+                subprocess.run(["rm", "-rf", tmp])
+                subprocess.run(["cp", "-a", "--sparse=always", os.path.join(sq.run, sub), tmp], check=True)
+                os.rename(tmp, tmpl)
+                with open(tmpl + ".stamp", "w") as f:
+                    f.write(stamp)
+                # templates of older binaries are of no use any more
+                for other in os.listdir(root):
+                    if other.endswith(".stamp") and other != name + ".stamp":
+                        try:
+                            with open(os.path.join(root, other)) as f:
+                                if f.read() != stamp:
+                                    subprocess.run(["rm", "-rf", os.path.join(root, other[:-6]), os.path.join(root, other)])
+                        except OSError:
+                            pass
+                self.templates[cache_dir] = tmpl
+                return None
+        self.templates[cache_dir] = tmpl
+        return tmpl
 
     def discard(self, sq):
         try:
